@@ -17,7 +17,11 @@ Clauses of the property sentence → theorems
   (needs: no `>` in the level strings — `transition_separator_collision` shows the hypothesis cannot be dropped)
 * "every file created lies under the repository path that was passed" → `writes_under_root`,
   `dropped_root_escapes` (why `rootPassed` is needed)
-* "an update that is rejected for invalid data leaves previously stored keys readable" → `rejected_update_preserves`
+* "an update that is rejected for invalid data leaves previously stored keys readable" → `rejected_update_preserves`,
+  `call_preserves_or_writes` (every kind of call; old value or a value this call passed), `rejected_call_not_atomic`
+  (why not "unchanged"), `accepted_update_every_target_readable` (bulk updates over several / fresh files)
+* histories may contain add_*, update_*, install_*, `install_files` and `populate` calls (`Op`; `installFiles_refines`,
+  `populate_refines`); `arg_key_iff`: call arguments ↦ key components
 -/
 namespace Cherab.Props.C06
 open Cherab.Repository
@@ -28,17 +32,30 @@ inductive Op
   | upd (u : UpdFn) (inp : UpdInput) (root : Option Path)
   | add (a : AddFn) (args : List Arg) (items : List (List Arg × Rate)) (root : Option Path)
   | ins (i : InstallFn) (inps : List UpdInput) (root : Option Path)
+  /-- `install_files(configuration, repository_path=root)`: the dispatched `install_*` calls with their parsed data -/
+  | files (cfg : List (InstallFn × List UpdInput)) (root : Option Path)
+  /-- `repository.populate(repository_path=root)`: `install_files`, then `update_wavelengths` -/
+  | populate (cfg : List (InstallFn × List UpdInput)) (wl : UpdInput) (root : Option Path)
 
 def Op.root : Op → Option Path
   | .upd _ _ r => r
   | .add _ _ _ r => r
   | .ins _ _ r => r
+  | .files _ r => r
+  | .populate _ _ r => r
+
+def Op.isFrontEnd : Op → Bool
+  | .files _ _ => true
+  | .populate _ _ _ => true
+  | _ => false
 
 /-- the model's execution of one call -/
 def Op.run (T : Tables) : Op → FS → Res
   | .upd u inp r => update T u inp r
   | .add a args items r => Repository.add T a args items r
   | .ins i inps r => install T i inps r
+  | .files cfg r => installFiles T cfg r
+  | .populate cfg wl r => Repository.populate T cfg wl r
 
 /-- a history: every call runs on the file system the previous one left (an exception aborts only its own call) -/
 def runOps (T : Tables) (ops : List Op) (fs : FS) : FS := ops.foldl (fun fs op => (op.run T fs).1) fs
@@ -51,6 +68,21 @@ def insPuts (T : Tables) : List (UpdFn × Bool) → List UpdInput → List (Key 
     | some e => ((updPuts T u (u.prep T inp)).1, some e)
   | _, _ => ([], none)
 
+/-- point updates of `install_files`: its `install_*` calls in dispatch order, up to the first rejected one -/
+def filesPuts (T : Tables) : List (InstallFn × List UpdInput) → List (Key × Val) × Option Err
+  | [] => ([], none)
+  | (i, inps) :: rest =>
+    match (insPuts T (T.installCalls i) inps).2 with
+    | none => ((insPuts T (T.installCalls i) inps).1 ++ (filesPuts T rest).1, (filesPuts T rest).2)
+    | some e => ((insPuts T (T.installCalls i) inps).1, some e)
+
+/-- point updates of `populate`: those of `install_files`, then (if none was rejected) those of `update_wavelengths` -/
+def populatePuts (T : Tables) (cfg : List (InstallFn × List UpdInput)) (wl : UpdInput) : List (Key × Val) × Option Err :=
+  match (filesPuts T cfg).2 with
+  | none => ((filesPuts T cfg).1 ++ (updPuts T .wavelength (UpdFn.prep T .wavelength wl)).1,
+             (updPuts T .wavelength (UpdFn.prep T .wavelength wl)).2)
+  | some e => ((filesPuts T cfg).1, some e)
+
 /-- **the abstract specification** of one call on the key → value map: a list of point updates and an outcome, both
 computed from the call's arguments alone.  `add_y` is the update of the family it is named after.  (`prep` is the
 identity, except for `update_pec_rates` while the table flag `pecReindexes` is set: see `Model/Repository.lean`.) -/
@@ -58,6 +90,8 @@ def Op.puts (T : Tables) : Op → List (Key × Val) × Option Err
   | .upd u inp _ => updPuts T u (u.prep T inp)
   | .add a args items _ => updPuts T a.own (a.wrap T args items)
   | .ins i inps _ => insPuts T (T.installCalls i) inps
+  | .files cfg _ => filesPuts T cfg
+  | .populate cfg wl _ => populatePuts T cfg wl
 
 def specRun (T : Tables) (ops : List Op) (m : KV) : KV := ops.foldl (fun m op => applyPuts (op.puts T).1 m) m
 
@@ -71,6 +105,8 @@ def Op.Typed (T : Tables) : Op → Prop
   | .upd u inp _ => InputTyped u inp
   | .add a args items _ => InputTyped a.own (a.wrap T args items)
   | .ins i inps _ => insTyped (T.installCalls i) inps
+  | .files cfg _ => ∀ c ∈ cfg, insTyped (T.installCalls c.1) c.2
+  | .populate cfg wl _ => (∀ c ∈ cfg, insTyped (T.installCalls c.1) c.2) ∧ InputTyped .wavelength wl
 
 theorem wellFormed_iff (T : Tables) : T.wellFormed = true ↔
     T.addMatches = true ∧ T.getMatches = true ∧ T.shapesOk = true ∧ T.disjointOk = true ∧ T.rootPassed = true := by
@@ -106,6 +142,59 @@ theorem installAll_refines (T : Tables) (hS : T.shapesOk = true) (hD : T.disjoin
         exact applyPuts_congr _ _ _ _ h2
       | some e => exact ⟨rfl, h2⟩
 
+theorem installFiles_refines (T : Tables) (hW : T.wellFormed = true) (root : Option Path) (k : Key) (hk : k.ok = true) :
+    ∀ (cfg : List (InstallFn × List UpdInput)) (fs : FS), (∀ c ∈ cfg, insTyped (T.installCalls c.1) c.2) →
+    (installFiles T cfg root fs).2 = (filesPuts T cfg).2 ∧
+    absView T (resolve root) (installFiles T cfg root fs).1.at k
+      = applyPuts (filesPuts T cfg).1 (absView T (resolve root) fs.at) k := by
+  obtain ⟨_, _, hS, hD, hR⟩ := (wellFormed_iff T).mp hW
+  intro cfg
+  induction cfg with
+  | nil => intro fs _; simp [installFiles, filesPuts, applyPuts]
+  | cons c cs ih =>
+    intro fs ht
+    obtain ⟨i, inps⟩ := c
+    have hti : insTyped (T.installCalls i) inps := ht (i, inps) (List.mem_cons_self ..)
+    have hts : ∀ c ∈ cs, insTyped (T.installCalls c.1) c.2 := fun c h => ht c (List.mem_cons_of_mem _ h)
+    have h12 := installAll_refines T hS hD root k hk (T.installCalls i) inps fs hti
+    rw [← installSeq_eq T root _ inps fs (rootPassed_of T hR i)] at h12
+    obtain ⟨h1, h2⟩ := h12
+    simp only [installFiles, filesPuts, passes_of_rootPassed T hR, if_true, install]
+    rcases hu : installSeq T (T.installCalls i) inps root fs with ⟨fs', o⟩
+    rw [hu] at h1 h2
+    simp only at h1 h2
+    rw [← h1]
+    cases o with
+    | none =>
+      simp only []
+      obtain ⟨i1, i2⟩ := ih fs' hts
+      refine ⟨i1, ?_⟩
+      rw [i2, applyPuts_append]
+      exact applyPuts_congr _ _ _ _ h2
+    | some e => exact ⟨rfl, h2⟩
+
+theorem populate_refines (T : Tables) (hW : T.wellFormed = true) (root : Option Path) (k : Key) (hk : k.ok = true)
+    (cfg : List (InstallFn × List UpdInput)) (wl : UpdInput) (fs : FS)
+    (ht : (∀ c ∈ cfg, insTyped (T.installCalls c.1) c.2) ∧ InputTyped .wavelength wl) :
+    (Repository.populate T cfg wl root fs).2 = (populatePuts T cfg wl).2 ∧
+    absView T (resolve root) (Repository.populate T cfg wl root fs).1.at k
+      = applyPuts (populatePuts T cfg wl).1 (absView T (resolve root) fs.at) k := by
+  obtain ⟨_, _, hS, hD, hR⟩ := (wellFormed_iff T).mp hW
+  obtain ⟨h1, h2⟩ := installFiles_refines T hW root k hk cfg fs ht.1
+  simp only [Repository.populate, populatePuts, passes_of_rootPassed T hR, if_true]
+  rcases hu : installFiles T cfg root fs with ⟨fs', o⟩
+  rw [hu] at h1 h2
+  simp only at h1 h2
+  rw [← h1]
+  cases o with
+  | none =>
+    simp only []
+    obtain ⟨u1, u2⟩ := update_refines T hS hD .wavelength wl ht.2 root fs' k hk
+    refine ⟨u1, ?_⟩
+    rw [u2, applyPuts_append]
+    exact applyPuts_congr _ _ _ _ h2
+  | some e => exact ⟨rfl, h2⟩
+
 /-- one call refines its specification -/
 theorem op_refines (T : Tables) (hW : T.wellFormed = true) (op : Op) (hT : op.Typed T) (fs : FS) (k : Key)
     (hk : k.ok = true) :
@@ -123,6 +212,8 @@ theorem op_refines (T : Tables) (hW : T.wellFormed = true) (op : Op) (hT : op.Ty
   | ins i inps r =>
     simp only [Op.run, Op.puts, Op.root, install, installSeq_eq T r _ inps fs (rootPassed_of T hR i)]
     exact installAll_refines T hS hD r k hk _ inps fs hT
+  | files cfg r => exact installFiles_refines T hW r k hk cfg fs hT
+  | populate cfg wl r => exact populate_refines T hW r k hk cfg wl fs hT
 
 theorem specRun_congr (T : Tables) (ops : List Op) (m m' : KV) (k : Key) (h : m k = m' k) :
     specRun T ops m k = specRun T ops m' k := by
@@ -422,21 +513,100 @@ theorem rejected_update_preserves (T : Tables) (hW : T.wellFormed = true) (u : U
     rw [h]
     exact applyPuts_isSome _ _ _ hs
 
+theorem lastWrite_mem (l : List (Key × Val)) (k : Key) (v : Val) (h : lastWrite l k = some v) : (k, v) ∈ l := by
+  induction l with
+  | nil => simp [lastWrite] at h
+  | cons kv t ih =>
+    simp only [lastWrite] at h
+    cases ht : lastWrite t k with
+    | some w => rw [ht] at h; cases h; exact List.mem_cons_of_mem _ (ih ht)
+    | none =>
+      rw [ht] at h
+      simp only at h
+      by_cases hk : k = kv.1
+      · rw [if_pos hk] at h; cases h; rw [hk]; exact List.mem_cons_self ..
+      · rw [if_neg hk] at h; cases h
+
+theorem lastWrite_isSome_of_mem (l : List (Key × Val)) (k : Key) (h : k ∈ l.map Prod.fst) : (lastWrite l k).isSome = true := by
+  induction l with
+  | nil => simp at h
+  | cons kv t ih =>
+    simp only [lastWrite]
+    cases ht : lastWrite t k with
+    | some w => rfl
+    | none =>
+      simp only [List.map_cons, List.mem_cons] at h
+      rcases h with h | h
+      · simp [h]
+      · have := ih h; rw [ht] at this; cases this
+
+/-- **every call, accepted or rejected at any point** (add_*, update_*, install_*, install_files, populate): afterwards
+each key holds either exactly the value it held before, or a value this very call passed (and validated) for that key;
+in particular a key that was readable stays readable, and a key the call makes no point update for is untouched.
+(Full "a rejected call leaves the repository unchanged" is *false* of the code and of the model — the ADF11-type writers
+store charge by charge: `rejected_call_not_atomic`.) -/
+theorem call_preserves_or_writes (T : Tables) (hW : T.wellFormed = true) (op : Op) (hT : op.Typed T) (fs : FS) (k : Key)
+    (hk : k.ok = true) :
+    (absView T (resolve op.root) (op.run T fs).1.at k = absView T (resolve op.root) fs.at k ∨
+      ∃ v, (k, v) ∈ (op.puts T).1 ∧ absView T (resolve op.root) (op.run T fs).1.at k = some v) ∧
+    ((absView T (resolve op.root) fs.at k).isSome = true →
+      (absView T (resolve op.root) (op.run T fs).1.at k).isSome = true) ∧
+    (k ∉ (op.puts T).1.map Prod.fst →
+      absView T (resolve op.root) (op.run T fs).1.at k = absView T (resolve op.root) fs.at k) := by
+  have h := (op_refines T hW op hT fs k hk).2
+  refine ⟨?_, ?_, ?_⟩
+  · rw [h, applyPuts_lastWrite]
+    cases hl : lastWrite (op.puts T).1 k with
+    | none => exact Or.inl rfl
+    | some v => exact Or.inr ⟨v, lastWrite_mem _ _ _ hl, rfl⟩
+  · intro hs; rw [h]; exact applyPuts_isSome _ _ _ hs
+  · intro hn; rw [h]; exact applyPuts_not_mem _ _ _ hn
+
+/-- **bulk updates, any number of files, fresh or existing**: after an `update_*` call that is not rejected, *every* key the
+nested dictionary addresses is readable (no entry is dropped: "only the last charge written"), and every other key —
+in the same file, in another file of the call, in any other family — is untouched (nothing leaks from one file's content
+into the next) -/
+theorem accepted_update_every_target_readable (T : Tables) (hW : T.wellFormed = true) (u : UpdFn) (inp : UpdInput)
+    (hT : InputTyped u inp) (root : Option Path) (fs : FS) (hacc : (update T u inp root fs).2 = none) (k : Key)
+    (hk : k.ok = true) :
+    (k ∈ targets u inp → ∃ v, (k, v) ∈ (updPuts T u (u.prep T inp)).1 ∧
+        absView T (resolve root) (update T u inp root fs).1.at k = some v) ∧
+    (k ∉ targets u inp → absView T (resolve root) (update T u inp root fs).1.at k = absView T (resolve root) fs.at k) := by
+  obtain ⟨_, _, hS, hD, _⟩ := (wellFormed_iff T).mp hW
+  obtain ⟨h1, h2⟩ := update_refines T hS hD u inp hT root fs k hk
+  have hnone : (updPuts T u (u.prep T inp)).2 = none := h1 ▸ hacc
+  have hkeys := updPuts_complete T u (u.prep T inp) hnone
+  rw [targets_prep] at hkeys
+  constructor
+  · intro hmem
+    rw [h2, applyPuts_lastWrite]
+    have := lastWrite_isSome_of_mem (updPuts T u (u.prep T inp)).1 k (hkeys ▸ hmem)
+    cases hl : lastWrite (updPuts T u (u.prep T inp)).1 k with
+    | none => rw [hl] at this; cases this
+    | some v => exact ⟨v, lastWrite_mem _ _ _ hl, rfl⟩
+  · intro hn
+    rw [h2]
+    exact applyPuts_not_mem _ _ _ (hkeys ▸ hn)
+
 /-! ## files -/
 
 /-- **`writes_under_root`**: no call creates, modifies or removes a file that is not under the repository path it was
 given — for `update_*` and `add_*` unconditionally, for the `install_*` front-ends when the tables say that every
 `repository.update_*` call receives `repository_path` -/
 theorem writes_under_root (T : Tables) (op : Op) (hR : ∀ i inps r, op = .ins i inps r → ∀ c ∈ T.installCalls i, c.2 = true)
+    (hF : op.isFrontEnd = true → T.rootPassed = true)
     (fs : FS) (p : Path) (hp : ¬ resolve op.root <+: p) : (op.run T fs).1.read p = fs.read p := by
   cases op with
   | upd u inp r => exact update_read T u inp r fs p hp
   | add a args items r => exact add_read T a args items r fs p hp
   | ins i inps r => exact installSeq_read T r p hp _ inps fs (hR i inps r rfl)
+  | files cfg r => exact installFiles_read T (hF rfl) r p hp cfg fs
+  | populate cfg wl r => exact populate_read T (hF rfl) cfg wl r fs p hp
 
 theorem writes_under_root_of_tables (T : Tables) (hW : T.wellFormed = true) (op : Op) (fs : FS) (p : Path)
     (hp : ¬ resolve op.root <+: p) : (op.run T fs).1.read p = fs.read p :=
-  writes_under_root T op (fun i _ _ _ => rootPassed_of T ((wellFormed_iff T).mp hW).2.2.2.2 i) fs p hp
+  writes_under_root T op (fun i _ _ _ => rootPassed_of T ((wellFormed_iff T).mp hW).2.2.2.2 i)
+    (fun _ => ((wellFormed_iff T).mp hW).2.2.2.2) fs p hp
 
 /-- … and neither do `install_files` and `populate`, when the tables say every front-end call hands the root on -/
 theorem front_ends_write_under_root (T : Tables) (hW : T.wellFormed = true) (cfg : List (InstallFn × List UpdInput))
@@ -627,5 +797,48 @@ example (r : Rate) (v : Val) (hv : validateAdf11 r = .ok v) (R : Path) (fs : FS)
       idealTables, Template.inst, renderSlots, renderSlot, UpdFn.normArgs, Arg.norm, UpdFn.pattern, prefixKV, itemKV,
       UpdFn.innerCheck, chargeOk, UpdFn.validate, hv, keyed]
   simp [specRun, hp, applyPuts, putKV]
+
+/-- the statement "a rejected call leaves the repository unchanged" is false: `update_ionisation_rates({C: {1: r, 7: r}})`
+raises ValueError (charge 7 > Z) *after* charge 1 has been stored — replayed on the implementation by the `rejected`
+history of harness/props/c06.py -/
+theorem rejected_call_not_atomic (r : Rate) (v : Val) (hv : validateAdf11 r = .ok v) :
+    Op.puts idealTables (.upd .ionisation [⟨[.sp ⟨true, "C", 6, 0⟩], [([.num 1], r), ([.num 7], r)]⟩] none)
+      = ([(⟨.ionisation, [.sym (lower "C")], [.num 1]⟩, v)], some .valueError) := by
+  simp [Op.puts, UpdFn.prep, updPuts, seqPuts, entryPuts, UpdFn.precheck, isElem, Tables.tmplOfUpd,
+    idealTables, Template.inst, renderSlots, renderSlot, UpdFn.normArgs, Arg.norm, UpdFn.pattern, prefixKV, itemKV,
+    UpdFn.innerCheck, chargeOk, UpdFn.validate, hv, keyed]
+
+/-- call arguments ↦ key components, made explicit: two transition arguments give the same key component iff their levels
+agree after `str().lower()` (no `>` in the upper levels — `transition_separator_collision` is the proved negation without
+it); two Element arguments iff their symbols agree after lower-casing; integer arguments iff equal -/
+theorem arg_key_iff :
+    (∀ u l u' l', '>' ∉ (lower u.render).toList → '>' ∉ (lower u'.render).toList →
+      (Arg.norm (.tr u l) = Arg.norm (.tr u' l') ↔ lower u.render = lower u'.render ∧ lower l.render = lower l'.render)) ∧
+    (∀ s s' : Species, s.isElement = true → s'.isElement = true →
+      (Arg.norm (.sp s) = Arg.norm (.sp s') ↔ lower s.symbol = lower s'.symbol)) ∧
+    (∀ n m : Int, Arg.norm (.num n) = Arg.norm (.num m) ↔ n = m) := by
+  refine ⟨?_, ?_, ?_⟩
+  · intro u l u' l' h h'
+    simp only [Arg.norm, KArg.tr.injEq]
+    exact transition_key_iff_lower_equal u l u' l' h h'
+  · intro s s' hs hs'
+    simp [Arg.norm, hs, hs']
+  · intro n m; simp [Arg.norm]
+
+-- non-vacuity of `call_preserves_or_writes` / `accepted_update_every_target_readable`: a typed call and an ok key exist
+example (r : Rate) : (Op.upd .ionisation [⟨[.sp ⟨true, "C", 6, 0⟩], [([.num 1], r), ([.num 7], r)]⟩] none).Typed idealTables := by
+  intro e he
+  simp only [List.mem_singleton] at he
+  subst he
+  refine ⟨by rfl, ?_⟩
+  intro it hit
+  simp only [List.mem_cons, List.not_mem_nil, or_false] at hit
+  rcases hit with rfl | rfl <;> rfl
+example : (Op.files [(.adf21, [[]]), (.adf15, [[], [], []])] none).Typed idealTables := by
+  intro c hc
+  simp only [List.mem_cons, List.not_mem_nil, or_false] at hc
+  rcases hc with rfl | rfl
+  · exact ⟨fun _ h => by simp at h, trivial⟩
+  · exact ⟨fun _ h => by simp at h, fun _ h => by simp at h, fun _ h => by simp at h, trivial⟩
 
 end Cherab.Props.C06
